@@ -157,8 +157,52 @@ def replay_coll(recs):
     return out
 
 
+def replay_coll3(groups):
+    """3-space: one polygon against a LineCollection of all its lines (lines parallel to the plane of the polygon mixed in:
+    the dependent positions are masked out by the library), and a PolygonCollection of the quadrilaterals against one line.
+    The returned list must be the multiset union of what the single pairs return."""
+    g = import_geometer()
+    out = []
+    P = lambda v: g.Point(*v)  # noqa: E731
+
+    def cmp(site, case, got, exp):
+        used = [False] * len(exp)
+        ok = len(got) == len(exp)
+        for gp in got:
+            hit = [i for i, e in enumerate(exp) if not used[i] and same_class(gp, e)]
+            if not hit:
+                ok = False
+                break
+            used[hit[0]] = True
+        if not ok:
+            out.append(dict(site=site, stratum="collection", case=case, expected=[e.tolist() for e in exp],
+                            observed=[np.asarray(x).tolist() for x in got]))
+
+    for kind, recs in groups:
+        try:
+            if kind == "lines":
+                poly = recs[0]["r"]["poly"]
+                A = g.PointCollection(np.array([r["r"]["a"] + [1] for r in recs]))
+                B = g.PointCollection(np.array([r["r"]["b"] + [1] for r in recs]))
+                got = pts_of(g.Polygon(*[P(v) for v in poly]).intersect(g.join(A, B)))
+                exp = [np.array(p) for r in recs for p in r["r"]["r"]["pts"]]
+                cmp("Polygon.intersect(LineCollection)/3D", {"poly": poly, "lines": [[r["r"]["a"], r["r"]["b"]] for r in recs][:10], "count": len(recs)}, got, exp)
+            else:
+                a, b = recs[0]["r"]["a"], recs[0]["r"]["b"]
+                polys = g.PolygonCollection(np.array([[list(v) + [1] for v in r["r"]["poly"]] for r in recs]))
+                got = pts_of(polys.intersect(g.Line(P(a), P(b))))
+                exp = [np.array(p) for r in recs for p in r["r"]["r"]["pts"]]
+                cmp("PolygonCollection.intersect(Line)/3D", {"polys": [r["r"]["poly"] for r in recs], "a": a, "b": b}, got, exp)
+        except Exception as e:  # noqa: BLE001
+            out.append(dict(site=("Polygon.intersect(LineCollection)/3D" if kind == "lines" else "PolygonCollection.intersect(Line)/3D"),
+                            stratum="collection", case={"count": len(recs)}, expected="points", observed=f"raised {type(e).__name__}: {e}"))
+    return out
+
+
 def _work(job):
     try:
+        if job[0] == "coll3":
+            return replay_coll3(job[1])
         return replay(job[1]) if job[0] == "single" else replay_coll(job[1])
     except Exception:  # noqa: BLE001
         import traceback
@@ -195,6 +239,21 @@ def run(ctx: Ctx):
     for j, i in enumerate(range(0, len(ss), 7)):
         chunk = ss[i:i + 7]
         jobs.append(("coll", chunk[:3] + [sr[j % len(sr)]] + chunk[3:] + ([sr[(j * 5 + 1) % len(sr)]] if j % 2 else [])))
+    # 3-space collections (lines lying IN the plane of the polygon are left out: infinitely many common points)
+    p3 = [x for x in recs if x["r"]["t"] == "polyline3" and x["r"]["r"]["k"] == "set"]
+    bypoly, byline = {}, {}
+    for x in p3:
+        bypoly.setdefault(str(x["r"]["poly"]), []).append(x)
+        if len(x["r"]["poly"]) == 4:
+            byline.setdefault(str((x["r"]["a"], x["r"]["b"])), []).append(x)
+    g3 = []
+    for v in bypoly.values():
+        g3 += [("lines", v[i:i + 9]) for i in range(0, len(v), 9) if len(v[i:i + 9]) >= 2]
+    g3 += [("polys", v) for v in byline.values() if len(v) >= 2]
+    if len(g3) < 20 or not any(k == "polys" for k, _ in g3) or not any(k == "lines" for k, _ in g3):
+        raise MachineryError("too few 3D collection groups (vacuous)")
+    ctx.log(f"{sum(1 for k, _ in g3 if k == 'lines')} polygon x LineCollection groups, {sum(1 for k, _ in g3 if k == 'polys')} PolygonCollection x line groups")
+    jobs += [("coll3", g3[i:i + 60]) for i in range(0, len(g3), 60)]
     with Pool(16) as pool:
         results = pool.map(_work, jobs, chunksize=1)
     for res in results:
